@@ -119,10 +119,12 @@ def _npkey(st, op):
         st.r[np.str_(other)] = src * 2
         st.defs[other] = ("mul", ("loc", t), ("const", 2))
         st.np_defined = (other,)
+        st.np_avoid_reads = (other,)
     elif kind == "npstr_read":
         other = "c" if t != "c" else "b"
         U.assign(st.r, t, st.r[np.str_(other)] + 1)
         st.defs[t] = ("add", ("loc", other), ("const", 1))
+        st.np_defined = (other,)
     else:
         raise ValueError(kind)
     st.ex.notes["numpy_keys"] = st.ex.notes.get("numpy_keys", 0) + 1
@@ -169,6 +171,11 @@ def run_case(ex, case):
             ops = [o for o in ops if o[0] != "npkey"]
             # no second definition / in-place operation on a slot already defined through a numpy key (alias)
             ops = [o for o in ops if o[1] not in getattr(st, "np_defined", ())]
+            # ... and no read of a top-level location through the plain spelling while it is defined through
+            # the numpy spelling: the two refs are unrelated for the library, the tasks would be unordered
+            avoid = set(getattr(st, "np_avoid_reads", ()))
+            if avoid:
+                ops = [o for o in ops if not (o[0] == "expr" and avoid & U.reads(o[2])) and not (o[0] == "isubref" and o[2] in avoid)]
         i = case["first"] if k == 0 else ex.choose(len(ops))
         if i >= len(ops):
             return
